@@ -222,14 +222,20 @@ def default_cases():
     for d in pool:
         for v in pool:
             init = M([(S('x'), represent(v)), (S('y'), represent(5))])
-            cases.append((init, [('rmdefaults', {'x': d})], (d, v)))
+            cases.append((init, [('rmdefaults', [('x', True, d)], None)], (d, v, True)))
     # parsed spellings against numeric/bool defaults
     for text, tag in (('0x1F', 'int'), ('017', 'int'), ('1_000', 'int'), ('.inf', 'float'), ('1e3', 'float'),
                       ('yes', 'bool'), ('No', 'bool'), ('TRUE', 'bool'), ('~', 'null'), ('1:30', 'int')):
         for d in (31, 15, 1000, float('inf'), 1000.0, True, False, None, 90):
             init = M([(S('x'), S(text, tag)), (S('y'), S('k'))])
             kind, val = encode.construct_scalar(TAG + tag, text)
-            cases.append((init, [('rmdefaults', {'x': d})], (d, val if kind == 'ok' else object())))
+            cases.append((init, [('rmdefaults', [('x', True, d)], None)], (d, val if kind == 'ok' else object(), True)))
+    # _yatiml_defaults: overrides a defaulted parameter; entries for required or unknown names are ignored
+    for d in (None, 5, 'x', 1.5, True, []):
+        for v in (None, 5, 'x', 1.5, True, [], 6):
+            init = M([(S('r'), represent(v)), (S('x'), represent(v)), (S('y'), represent(v))])
+            cases.append((init, [('rmdefaults', [('r', False, None), ('x', True, 'sig'), ('y', True, d)],
+                                  {'x': d, 'r': d, 'zz': d})], (d, v, 'ovr')))
     return cases
 
 
@@ -242,13 +248,19 @@ def strict_equal(v, d):
 
 
 def default_oracle(init, ops, rets, final, dv):
-    d, v = dv
+    d, v, mode = dv
     if rets[0][0] == 'exn':
         return (f'rmdefaults-raises:{type(rets[0][1]).__name__}',
                 f'remove_attributes_with_default_values raised {type(rets[0][1]).__name__}: {rets[0][1]} for default {d!r} and value {v!r}')
     keys = [k.value for k, _ in final.value]
     removed = 'x' not in keys
     want = strict_equal(v, d)
+    if mode == 'ovr':
+        if 'r' not in keys:
+            return ('rmdefaults-removes-required', f'required (non-defaulted) attribute removed because _yatiml_defaults names it (value {v!r})')
+        if ('y' not in keys) != want or removed != want:
+            return ('rmdefaults-override', f'_yatiml_defaults {d!r} vs value {v!r}: x {"removed" if removed else "kept"}, y {"removed" if "y" not in keys else "kept"}, expected both {"removed" if want else "kept"}')
+        return None
     if 'y' not in keys or removed != want:
         return (f'rmdefaults-wrong:{type(d).__name__}-vs-{type(v).__name__}',
                 f'default {d!r}, value {v!r}: attribute {"removed" if removed else "kept"}, expected {"removed" if want else "kept"}')
